@@ -8,17 +8,27 @@ terminal, users, files and the C2 counterpart.  The C2 suite cannot run both of 
 same ports and both answer keep-alives), so the C2 arrangement is a harness dimension ``role``: ``bA`` = beacon on a /
 server on b, ``sA`` = server on a / beacon (+ ransomware-script) on b.
 
-Enumerated (explicit product, nothing sampled):
-  topology/placement x role x block mechanism x block placement {cold: before any traffic, warm: after a warm-up in which
-  a pinged b, opened a database connection, a remote terminal session and a C2 session, + one tick}
-  x EVERY attack sequence of length <= 2 (quick) / 3 (thorough) over the 15-event attacker alphabet (``MENU``).
+Enumerated (explicit products, nothing sampled; ``plan()``):
+  topology/placement x role x block mechanism {ACL/firewall-list deny of shape any-any | exact src | exact dst | wildcard
+  range | implicit deny with unrelated permits; interface disabled on the attacker / the victim / either side of the middle
+  device; link never connected or removed; victim off; middle device off}
+  x block placement {cold: before any traffic, warm: after a warm-up in which a pinged b, opened a database connection, a
+  remote terminal session and a C2 session, + one tick}
+  x EVERY attack sequence of length <= depth over the 15-event attacker alphabet (``MENU_COMMON`` + ``MENU_ROLE``).
+  quick: the core product (T1, T2, T3 with the attacker outside / victim inside: every mechanism and shape; the other five
+  T3 placements: any-any deny in each of their two lists) at depth 2;  thorough: the core product in all four
+  (placement, role) combinations at depth 3 + the wide product (every T3 placement x both lists x every shape x every
+  interface/link/power block x all four combinations) at depth 2.
 The sequences of one configuration are explored as a tree; every tree node is executed in a forked snapshot of the live
-objects of its parent (engine.fork_each), so a prefix is executed once.
+objects of its parent (engine.fork_each), so a prefix is executed once; ``replay`` re-runs one history without forking.
 
 Oracle 1 (non-interference, differential): the victim's deep state (every field of every installed software incl. its
 connections, sessions, users and remote sessions, ARP cache, file system incl. health and sizes, NIC enabled flags / traffic
-counters / NMNE, power state) after (prefix; block; sigma) equals its state after (prefix; block; as many ticks as sigma
-contains, the attacker idle) — checked after every event of every sequence and once more after ``SETTLE`` further ticks.
+counters / NMNE — also as they stood at the end of the last step, before pre_timestep zeroes them —, power state) after
+(prefix; block; sigma) equals its state after (prefix; block; as many ticks as sigma contains, the attacker idle) — checked
+after every event of every sequence and once more after ``SETTLE`` further ticks.  Signature of a difference: if the
+victim's interface accepted more frames than in the idle run, the block mechanism that leaked; otherwise (no frame crossed:
+software reached the other node's objects) the event and the changed components.
 Oracle 2 (per-frame monitor, class-level wrappers; also applied under protocol-/port-specific deny rules where oracle 1 does
 not apply, and in the unblocked control runs): once an ACL of a router/firewall has returned *deny* for a Frame object that
 node never calls send_frame with it, never hands it to its session manager / software manager, and its software-visible
@@ -732,13 +742,14 @@ class Agg:
         self.capped = False
         self.deepest = None
         self.mon = {}
+        self.levels = {}
 
     def merge(self, o):
         self.nodes += o.nodes
         self.transitions += o.transitions
         self.compared += o.compared
         self.skipped += o.skipped
-        for d, e in ((self.raised, o.raised), (self.hist, o.hist), (self.mon, o.mon)):
+        for d, e in ((self.raised, o.raised), (self.hist, o.hist), (self.mon, o.mon), (self.levels, o.levels)):
             for k, n in e.items():
                 d[k] = d.get(k, 0) + n
         for k, n in o.effects.items():
@@ -831,6 +842,7 @@ def step(u, ref, hist, ev, agg, control):
     lab = ev[0]
     agg.nodes += 1
     agg.transitions += 1
+    agg.levels[len(hist) + 1] = agg.levels.get(len(hist) + 1, 0) + 1
     agg.hist[lab] = agg.hist.get(lab, 0) + 1
     agg.outcomes.add(engine.digest((lab, outcome)))
     for k, n in u.mon.st.items():
@@ -925,7 +937,7 @@ def explore(item):
     return {"nodes": agg.nodes, "transitions": agg.transitions, "compared": agg.compared, "skipped": agg.skipped,
             "raised": agg.raised, "hist": agg.hist, "outcomes": sorted(agg.outcomes), "viols": agg.viols,
             "nsig": {"%s / %s" % k: n for k, n in agg.nsig.items()}, "effects": agg.effects, "capped": agg.capped,
-            "deepest": agg.deepest, "mon": agg.mon, "warm": u.warm, "ref_raises": sum(1 for r in ref if r is None),
+            "deepest": agg.deepest, "mon": agg.mon, "levels": {str(k): n for k, n in sorted(agg.levels.items())}, "warm": u.warm, "ref_raises": sum(1 for r in ref if r is None),
             "wall": round(time.time() - t0, 2)}
 
 
@@ -1075,7 +1087,7 @@ def run(tier, is_known):
     # depth the most expensive (warm) configurations first
     items = [(c, d, t_end) for c, d in sorted(plan(tier), key=lambda cd: (cd[0]["block"][0] != "none", cd[1], cd[0]["placement"] != "warm"))]
     tot = {"nodes": 0, "transitions": 0, "compared": 0, "skipped": 0}
-    hist, raised, mon, effects, nsig = {}, {}, {}, {}, {}
+    hist, raised, mon, effects, nsig, levels = {}, {}, {}, {}, {}, {}
     outcomes = set()
     viols, per, samples = [], [], []
     capped = False
@@ -1096,7 +1108,10 @@ def run(tier, is_known):
                 effects[k] = effects.get(k, False) or e
         if cfg["placement"] == "warm":
             warm_seen.setdefault("%s/%s" % (cfg["topo"], cfg["role"]), r["warm"])
-        per.append({"cfg": cfg, "depth": d, "histories": r["nodes"], "transitions": r["transitions"], "compared": r["compared"],
+        for k, n in r["levels"].items():
+            levels[k] = levels.get(k, 0) + n
+        per.append({"cfg": cfg, "depth": d, "depth_completed": d if not r["capped"] else "partial", "level_sizes": r["levels"],
+                    "histories": r["nodes"], "transitions": r["transitions"], "compared": r["compared"],
                     "skipped": r["skipped"], "violating_transitions": sum(r["nsig"].values()), "capped": r["capped"],
                     "denied_verdicts": r["mon"].get("denied", 0), "permitted_verdicts": r["mon"].get("permitted", 0),
                     "reference_ticks_raising": r["ref_raises"], "wall_s": r["wall"]})
@@ -1133,6 +1148,9 @@ def run(tier, is_known):
         "acl_verdicts_monitored": mon.get("verdicts", 0), "acl_denied": mon.get("denied", 0), "acl_permitted": mon.get("permitted", 0),
         "frames_through_router_or_firewall": mon.get("mid_frames", 0), "frames_sent_by_router_or_firewall": mon.get("mid_sends", 0),
         "event_histogram": hist, "distinct_outcomes": len(outcomes),
+        "histories_by_length": {k: levels[k] for k in sorted(levels)}, "merged_by_canon": 0,
+        "merging": "none: every history is executed (a tree, not a graph); nothing is pruned except beneath a violating transition "
+                   "and beneath a tick that raised",
         "exceptions_escaping_the_code_under_check": raised,
         "events_changing_the_victim_without_block": {k: bool(effects.get(k)) for k in menu_labels},
         "ineffective_events": ineffective,
